@@ -355,6 +355,20 @@ def run_nnx(ctx, depth):
   assert len(leaves) >= 12, len(leaves)
   ctx.extra['nnx_leaves'] = len(leaves)
 
+  # a type filter names any class: nnx.VariableState itself separates the variable states of a State from its raw array leaves
+  with ctx.case('nnx.pred', 900000, dict(filter='nnx.VariableState'), nontrivial=True):
+    pred_vs = filterlib.to_predicate(nnx.VariableState)
+    ctx.op('to_predicate')
+    for path, var, vstate, vtype, tag in leaves:
+      is_vs = isinstance(vstate, nnx.VariableState)
+      ctx.check(bool(pred_vs(path, vstate)) == is_vs, 'nnx.pred:class_of_the_leaf_object', lambda: dict(path=path, leaf=repr(vstate)[:100], want=is_vs))
+    var_paths = sorted((tuple(p) for p, _, vs, _, _ in leaves if isinstance(vs, nnx.VariableState)), key=repr)
+    for name, call in (('nnx.state', lambda: nnx.state(root, nnx.VariableState)), ('nnx.split', lambda: nnx.split(root, nnx.VariableState, ...)[1]),
+                       ('split_state', lambda: nnx.split_state(full, nnx.VariableState, ...)[0]), ('Not', lambda: nnx.split_state(full, nnx.Not(nnx.VariableState), ...)[1])):
+      got_paths = sorted((tuple(p) for p, _ in statelib.to_flat_state(call())), key=repr)
+      ctx.op(name)
+      ctx.check(got_paths == var_paths, 'nnx.partition:class_of_the_leaf_object', lambda: dict(api=name, got=len(got_paths), want=len(var_paths)))
+
   for i, d in ctx.items(exprs, 'nnx.pred'):
     with ctx.case('nnx.pred', i, d, nontrivial=d[0] not in ('bool', 'none', 'ellipsis')):
       pred = filterlib.to_predicate(nnx_build(nnx, types, d))
